@@ -185,6 +185,34 @@ def _words_cover_search(rem, words, limits):
     return search(+Counter(rem), 0)
 
 
+def _eq_then_brace(text):
+    """is there an `=` followed - after blanks and complete comments only - by `{`?  A linear scan: the regular expression
+    that did this backtracked for hours on texts with many comment openers."""
+    n = len(text)
+    at = text.find('=')
+    while at != -1:
+        i = at + 1
+        while i < n:
+            if text[i].isspace():
+                i += 1
+            elif text.startswith('/*', i):
+                j = text.find('*/', i + 2)
+                if j == -1:
+                    break
+                i = j + 2
+            elif text.startswith('//', i):
+                j = text.find('\n', i)
+                if j == -1:
+                    break
+                i = j + 1
+            else:
+                break
+        if i < n and text[i] == '{':
+            return True
+        at = text.find('=', at + 1)
+    return False
+
+
 def explain(lost, invented, text):
     """The tree records neither the enum keyword (`enum`, `enum class`, `enum struct`) nor `std::` before pair; comment
     text is dropped where it is filler and kept where it is part of a default value.  Returns 'ok',
@@ -204,7 +232,7 @@ def explain(lost, invented, text):
     sites = []
     if 'typedef' in text:
         sites.append('typedef-qualifiers')
-    if _re.search(r'=\s*(?:/\*.*?\*/|//[^\n]*\n|\s)*\{', text, _re.S):
+    if _eq_then_brace(text):
         sites.append('instantiation-qualifiers')
     if sites:
         for credit in (cc, Counter()):
